@@ -43,6 +43,9 @@ def act_script(name, d, outcome):
     if outcome == 'date':
         # waits for an absolute date (start + d; with a negative start time this can be the date 0)
         return [['GE', d], ['RETURN', name]]
+    if outcome in ('hop1', 'hop2'):
+        # becomes available in the same time step as a plain delay of d, but one or two turns of the loop later
+        return s + [['INSTANT']] * int(outcome[3]) + [['RETURN', name]]
     if outcome == 'failpriv':
         # fails with a proper subclass of a privileged exception type: raised unwrapped
         return s + [['RAISE', 'Mismatch', name]]
@@ -139,6 +142,19 @@ def cases(tier):
             out.append(program('collect', acts))
             for count in list(range(0, n + 1)) + [None]:
                 for consumer in ('eager', 'break1'):
+                    out.append(program('first', acts, count, consumer))
+    # ties in virtual time between different kinds of waits: a delay, an absolute date, a delay followed by one or two more turns
+    # (an activity that becomes available in the very time step in which the consumer got its last result / came back for more)
+    hop = [(1, 'ok'), (1, 'hop1'), (1, 'hop2'), (1, 'date'), (0, 'ok'), (0, 'hop1'), (2, 'ok')]
+    for n in (2, 3):
+        for acts in itertools.product(hop, repeat=n):
+            if not any(o in ('hop1', 'hop2', 'date') for _, o in acts):
+                continue
+            if n == 3 and (acts[0][1] != 'ok' or sum(1 for a in acts if a[1] in ('hop1', 'hop2', 'date')) > 2):
+                continue
+            out.append(program('collect', acts))
+            for count in list(range(0, n + 1)) + [None]:
+                for consumer in ('eager', 'break1') + (('slow',) if n == 2 else ()):
                     out.append(program('first', acts, count, consumer))
     for acts in itertools.product([(1, 'ok'), (2, 'ok'), (2, 'tick')], repeat=2):
         out.append(program('collect', acts, until_now=True))
@@ -274,6 +290,9 @@ def judge(ctx, program, hit_caller=False):
             msgs.append('a contestant failed but first ended normally with %r' % (got,))
     elif fin is None:
         msgs.append('first never ended')
+    elif fin[1] == 'exc' and not failed_all and not hit_caller and not meta.get('until_now'):
+        # nobody failed and nobody interfered: the iteration has to end regularly
+        msgs.append('no contestant failed but first ended with %s' % (describe(fin[3]),))
     return msgs + kernel_health(ctx), nontrivial, 'first-' + ('fail' if failed else 'ok')
 
 
